@@ -86,7 +86,10 @@ func (o Omittable[T]) MarshalGQL(w io.Writer) {
 	case ContextMarshaler:
 		_ = marshaler.MarshalGQLContext(context.Background(), w)
 	default:
-		b, _ := json.Marshal(value)
+		b, err := json.Marshal(value)
+		if err != nil {
+			panic(err)
+		}
 		w.Write(b)
 	}
 }
@@ -125,7 +128,10 @@ func (o Omittable[T]) MarshalGQLContext(ctx context.Context, w io.Writer) {
 	case Marshaler:
 		marshaler.MarshalGQL(w)
 	default:
-		b, _ := json.Marshal(value)
+		b, err := json.Marshal(value)
+		if err != nil {
+			panic(err)
+		}
 		w.Write(b)
 	}
 }
